@@ -7,7 +7,7 @@ import logging; logging.disable(logging.CRITICAL)
 
 sys.path.insert(0, '/verif')
 import harness.c02 as H
-rec = {'p': [9, 6, 5, 12, 3, 2, 11, 10, 1, 8, 7, 4], 'problems': ["convert_to_dot_bracket(optimal MILP solution #0): '((([))[[)]]]' objective 0 is not optimal; better levels [2, 0, 1, 0] objective 1", "convert_to_dot_bracket(optimal MILP solution #1): '[[[(]]((])))' objective 0 is not optimal; better levels [2, 0, 1, 0] objective 1"], 'keys': ['BpSeq.dot_bracket:optimal'], 'stats': {'queries': 2, 'unknown': 0, 'lps': 1, 'solutions': 2, 'incomplete': 0, 'lemma_a_unsat': 1, 'lemma_b_unsat': 1}, 'kind': 'pairing', 'id': [[6, 4, 8, 2, 7, 1, 5, 3], [1, 2, 1, 2]]}
+rec = {'p': [9, 6, 5, 12, 3, 2, 11, 10, 1, 8, 7, 4], 'problems': ["convert_to_dot_bracket(optimal MILP solution #0): '((([))[[)]]]' objective 0 is not optimal; better levels [2, 0, 1, 0] objective 1", "convert_to_dot_bracket(optimal MILP solution #1): '[[[(]]((])))' objective 0 is not optimal; better levels [2, 0, 1, 0] objective 1"], 'keys': ['BpSeq.dot_bracket:optimal'], 'stats': {'queries': 4, 'unknown': 0, 'lps': 1, 'solutions': 4, 'incomplete': 0, 'lemma_a_unsat': 1, 'lemma_b_unsat': 1}, 'kind': 'pairing', 'id': [[6, 4, 8, 2, 7, 1, 5, 3], [1, 2, 1, 2]]}
 ok = H.replay(rec)
 print("property holds on this input (not reproduced)" if ok else "REPRODUCED", rec)
 sys.exit(0 if ok else 1)
